@@ -311,7 +311,8 @@ KMAX = 14
 
 @obligation(quick=240, thorough=900,
             partitions_quick=[f"kind == {a} and k <= 5" for a in range(3)] + [f"kind == {a} and k > 5" for a in range(3)],
-            partitions_thorough=[f"kind == {a} and k == {k}" for a in range(3) for k in range(1, KMAX + 1)],
+            # parity, not single values of k: single crash points inside the known-finding class would become empty partitions
+            partitions_thorough=[f"kind == {a} and k % 2 == {m}" for a in range(3) for m in (0, 1)],
             what="whole in-process server stack: restart from the first k persisted ticks (k symbolic) ends with the same status and result as the "
                  "uninterrupted run; a log that already ends the run is finalised, not re-run",
             bounds={"workflows": "chain / chain with a step failing nfail<=2 times (retry delay d<=2) / fan-out + collect", "k": "1..len(log) <= 14"})
